@@ -130,10 +130,18 @@ def train_run(args):
         raise RuntimeError("train_run: %d devices requested, %d present" % (spec["ndev"], len(jax.devices())))
     kw["devices"] = jax.devices()[: spec.get("ndev", 1)]
     rec = trainrec.Recorder(max_epochs=n_ep)
+    tmpd = None
+    if spec.get("save"):
+        import tempfile
+        tmpd = tempfile.mkdtemp(prefix="c19-save-")
+        kw["save_model"] = os.path.join(tmpd, "model.eqx")
     try:
         rec.run(kw)
     except Exception as ex:
         rec.events.append({"ev": "Raised", "what": "%s: %s" % (type(ex).__name__, str(ex)[:200])})
+    if tmpd:
+        import shutil
+        shutil.rmtree(tmpd, ignore_errors=True)
     cfg = dict(kind=spec["kind"], monitor=spec["monitor"], patience=spec["patience"], mindelta=spec["mindelta"],
                epochs=spec["epochs"], L=L, B=B, keyed=True, hasval=spec["hasval"], LV=spec["LV"], focus=spec.get("focus", "stop"),
                script=per_epoch, vscript=vtab_epoch)
@@ -160,6 +168,9 @@ def make_train_specs(rng, by_cfg, n):
                           vhist=h if mon == "val" else decoy, vfill=max(h) if mon == "val" else 1,
                           extra=consts["Patience"] + 2, L=rng.choice([4, 6, 7]), B=rng.choice([2, 3]),
                           hasval=(mon == "val") or (i % 3 == 0), LV=rng.choice([2, 3, 4]) if True else 2))
+    # one longer EpochStop run that crosses the every-10-epochs `save_model` branch of ml.train
+    specs.append(dict(kind="epochs", monitor="train", patience=0, mindelta=0, epochs=11, hist=[3] * 11, fill=3, vhist=[3] * 11, vfill=3,
+                      extra=1, L=4, B=2, hasval=False, LV=2, save=True))
     for s in specs:
         if s["LV"] < s["B"]:
             s["LV"] = s["B"]
